@@ -16,22 +16,68 @@ pub struct Cfg {
     pub medium: Medium,
     pub caps: Caps,
     pub ver: Ver,
+    /// 0: standard world; 1: dhcpv4 client waiting for an OFFER; 2: waiting for the ACK of its REQUEST
+    pub dhcp: u8,
 }
 impl Cfg {
     fn name(&self) -> String {
-        format!("{}/v{}/{}", medium_name(self.medium), self.ver.n(), self.caps.name())
+        format!("{}/v{}/{}{}", medium_name(self.medium), self.ver.n(), self.caps.name(), match self.dhcp { 1 => "/dhcp-discovering", 2 => "/dhcp-requesting", _ => "" })
     }
 }
 
 const CBUF: usize = 64;
 
-fn make_world(cfg: &Cfg) -> Result<(World, u32), String> {
-    let mut w = World::new(cfg.medium, cfg.caps, 1500, CBUF);
-    let isn = w.establish_x(cfg.ver)?;
-    Ok((w, isn))
+pub const DHCP_SERVER: [u8; 4] = PEER4;
+pub const DHCP_OFFERED: [u8; 4] = [192, 168, 69, 50];
+
+fn dhcp_reply(msg_type: u8, xid: u32) -> Vec<u8> {
+    let d = build_dhcp_reply(msg_type, xid, &MY_MAC, &DHCP_OFFERED, &DHCP_SERVER);
+    let u = build_udp(&DHCP_SERVER, &[255, 255, 255, 255], 67, 68, &d);
+    build_ip(&DHCP_SERVER, &[255, 255, 255, 255], 17, &u)
 }
 
-pub fn base_cases(ver: Ver, isn: u32) -> Vec<(&'static str, Vec<u8>)> {
+/// returns the world, the stack's TCP ISN on the established socket and (dhcp) the client's xid
+fn make_world(cfg: &Cfg) -> Result<(World, u32, u32), String> {
+    let mut w = World::new(cfg.medium, cfg.caps, 1500, CBUF);
+    let isn = w.establish_x(cfg.ver)?;
+    let mut xid = 0;
+    if cfg.dhcp > 0 {
+        if cfg.medium != Medium::Ethernet {
+            return Err("dhcp needs Medium::Ethernet".into());
+        }
+        w.sockets.add(smoltcp::socket::dhcpv4::Socket::new());
+        w.poll();
+        let out = w.drain();
+        let mut found = false;
+        for f in &out {
+            // Ethernet + IPv4 + UDP(68->67) + BOOTP: xid at BOOTP offset 4
+            if f.len() >= 14 + 20 + 8 + 8 && get16(&f[12..14]) == 0x0800 && f[14 + 9] == 17 && get16(&f[14 + 20 + 2..]) == 67 {
+                xid = get32(&f[14 + 20 + 8 + 4..]);
+                found = true;
+            }
+        }
+        if !found {
+            return Err(format!("no DHCPDISCOVER emitted ({} frames)", out.len()));
+        }
+        if cfg.dhcp == 2 {
+            let out = w.deliver(&dhcp_reply(2, xid));
+            let req = out.iter().any(|f| f.len() >= 14 + 20 + 8 + 8 && get16(&f[12..14]) == 0x0800 && f[14 + 9] == 17 && get16(&f[14 + 20 + 2..]) == 67);
+            if !req {
+                return Err("no DHCPREQUEST emitted after the OFFER".into());
+            }
+        }
+    }
+    Ok((w, isn, xid))
+}
+
+pub fn base_cases(cfg: &Cfg, isn: u32, xid: u32) -> Vec<(&'static str, Vec<u8>)> {
+    if cfg.dhcp == 1 {
+        return vec![("dhcp-offer-to-discovering-client", dhcp_reply(2, xid))];
+    }
+    if cfg.dhcp == 2 {
+        return vec![("dhcp-ack-to-requesting-client", dhcp_reply(5, xid))];
+    }
+    let ver = cfg.ver;
     let (me, peer) = (ver.my(), ver.peer());
     let v4 = ver == Ver::V4;
     let icmp = icmp_proto(v4);
@@ -140,7 +186,7 @@ impl Outcome {
 }
 
 pub fn deliver_fresh(cfg: &Cfg, pkt: Option<&[u8]>) -> Result<Outcome, String> {
-    let (mut w, _) = make_world(cfg)?;
+    let (mut w, _, _) = make_world(cfg)?;
     let before = w.debug();
     let r = std::panic::catch_unwind(std::panic::AssertUnwindSafe(|| match pkt {
         Some(p) => w.deliver(p),
@@ -205,7 +251,7 @@ fn flip(p: &mut [u8], bit: usize) {
 }
 
 fn replay_json(cfg: &Cfg, case: &str, flips: &[usize], fix: bool, pkt: &[u8]) -> Value {
-    json!({"part":"c","medium":medium_name(cfg.medium),"caps":cfg.caps.to_json(),"caps_name":cfg.caps.name(),"ver":cfg.ver.n(),
+    json!({"part":"c","medium":medium_name(cfg.medium),"caps":cfg.caps.to_json(),"caps_name":cfg.caps.name(),"ver":cfg.ver.n(),"dhcp":cfg.dhcp,
            "case":case,"flipped_bits":flips,"ipv4_header_checksum_recomputed":fix,"packet":hex(pkt)})
 }
 
@@ -257,7 +303,7 @@ fn eval(cfg: &Cfg, case: &str, base: &[u8], flips: &[usize], fix: bool, st: &mut
 
 /// sweep all flips of all base cases under one configuration
 fn sweep(cfg: &Cfg, double: bool, fix: bool, only_cases: Option<&[&str]>) -> CStats {
-    let (_, isn) = match make_world(cfg) {
+    let (_, isn, xid) = match make_world(cfg) {
         Ok(x) => x,
         Err(e) => {
             let mut st = CStats::default();
@@ -266,7 +312,7 @@ fn sweep(cfg: &Cfg, double: bool, fix: bool, only_cases: Option<&[&str]>) -> CSt
         }
     };
     let mut total = CStats::default();
-    for (case, base) in base_cases(cfg.ver, isn) {
+    for (case, base) in base_cases(cfg, isn, xid) {
         if let Some(oc) = only_cases {
             if !oc.contains(&case) {
                 continue;
@@ -277,15 +323,19 @@ fn sweep(cfg: &Cfg, double: bool, fix: bool, only_cases: Option<&[&str]>) -> CSt
         }
         let nbits = base.len() * 8;
         let in_ck = |b: usize| (80..96).contains(&b);
+        // DHCP replies: double flips are enumerated over all bit pairs outside the 192 all-zero
+        // bytes of the BOOTP sname/file fields (IP 20 + UDP 8 + BOOTP offset 44..236); single
+        // flips cover every bit
+        let in_skip = |b: usize| cfg.dhcp > 0 && (72 * 8..264 * 8).contains(&b);
         let firsts: Vec<usize> = (0..nbits).filter(|&b| !fix || (b < 160 && !in_ck(b))).collect();
         let st = firsts
             .par_iter()
             .map(|&i| {
                 let mut st = CStats::default();
                 eval(cfg, case, &base, &[i], fix, &mut st);
-                if double {
+                if double && !in_skip(i) {
                     for j in i + 1..nbits {
-                        if fix && in_ck(j) {
+                        if (fix && in_ck(j)) || in_skip(j) {
                             continue;
                         }
                         eval(cfg, case, &base, &[i, j], fix, &mut st);
@@ -312,8 +362,8 @@ fn confirm_bases(cfg: &Cfg, rep: &mut Report, table: &mut BTreeMap<String, Strin
             return 0;
         }
     }
-    let Ok((_, isn)) = make_world(cfg) else { return 0 };
-    for (case, base) in base_cases(cfg.ver, isn) {
+    let Ok((_, isn, xid)) = make_world(cfg) else { return 0 };
+    for (case, base) in base_cases(cfg, isn, xid) {
         let v = verdict(&base, &Caps::DEFAULT);
         let exp_valid = v == Verdict::StillValid || (case == "ip-unknown-protocol" && matches!(v, Verdict::NA(_)));
         if !exp_valid {
@@ -337,7 +387,7 @@ fn zero_tests(rep: &mut Report, st: &mut CStats) -> Value {
     let mut out = serde_json::Map::new();
     for medium in [Medium::Ip, Medium::Ethernet] {
         for ver in [Ver::V4, Ver::V6] {
-            let cfg = Cfg { medium, caps: Caps::DEFAULT, ver };
+            let cfg = Cfg { medium, caps: Caps::DEFAULT, ver, dhcp: 0 };
             let (me, peer) = (ver.my(), ver.peer());
             let pl: Vec<u8> = (0..12u8).map(|i| 0x61 + i).collect();
             // 1: checksum field forced to zero, arithmetic does not verify
@@ -406,33 +456,40 @@ pub fn run(rep: &mut Report, tier: Tier) {
         }
         let st = sweep(&cfg, double, fix, None);
         // compact per-case outcome table
-        parts.push(json!({"sweep": label, "config": cfg.name(), "flips": if double {"all single and all double bit flips"} else {"all single bit flips"},
+        parts.push(json!({"sweep": label, "config": cfg.name(), "flips": if double && cfg.dhcp > 0 {"all single bit flips; all double bit flips with both bits outside the all-zero BOOTP sname/file bytes"} else if double {"all single and all double bit flips"} else {"all single bit flips"},
             "ipv4_header_checksum_recomputed_after_flip": fix, "mutants_delivered": st.delivered, "outcomes": st.counts, "violating_mutants": st.viol_counts}));
         let t = std::mem::take(total);
         *total = t.merge(st);
     };
     let all_rx = Caps([1; 5]);
     for ver in [Ver::V4, Ver::V6] {
-        let d = Cfg { medium: Medium::Ip, caps: Caps::DEFAULT, ver };
+        let d = Cfg { medium: Medium::Ip, caps: Caps::DEFAULT, ver, dhcp: 0 };
         do_sweep("default", d, thorough, false, rep, &mut total, &mut bases);
         if ver == Ver::V4 {
             do_sweep("default+hdrfix", d, thorough, true, rep, &mut total, &mut bases);
         }
-        do_sweep("ethernet", Cfg { medium: Medium::Ethernet, caps: Caps::DEFAULT, ver }, thorough, false, rep, &mut total, &mut bases);
-        do_sweep("all-Rx", Cfg { medium: Medium::Ip, caps: all_rx, ver }, thorough, false, rep, &mut total, &mut bases);
+        do_sweep("ethernet", Cfg { medium: Medium::Ethernet, caps: Caps::DEFAULT, ver, dhcp: 0 }, thorough, false, rep, &mut total, &mut bases);
+        do_sweep("all-Rx", Cfg { medium: Medium::Ip, caps: all_rx, ver, dhcp: 0 }, thorough, false, rep, &mut total, &mut bases);
         if ver == Ver::V4 {
-            do_sweep("all-Rx+hdrfix", Cfg { medium: Medium::Ip, caps: all_rx, ver }, thorough, true, rep, &mut total, &mut bases);
+            do_sweep("all-Rx+hdrfix", Cfg { medium: Medium::Ip, caps: all_rx, ver, dhcp: 0 }, thorough, true, rep, &mut total, &mut bases);
         }
         // rx verification off for one protocol at a time (recording), and for all
         for p in 0..5 {
             let mut c = [0u8; 5];
             c[p] = 2; // Tx only
-            do_sweep("one-protocol-rx-off", Cfg { medium: Medium::Ip, caps: Caps(c), ver }, false, false, rep, &mut total, &mut bases);
+            do_sweep("one-protocol-rx-off", Cfg { medium: Medium::Ip, caps: Caps(c), ver, dhcp: 0 }, false, false, rep, &mut total, &mut bases);
             if ver == Ver::V4 && p != IPV4 {
-                do_sweep("one-protocol-rx-off+hdrfix", Cfg { medium: Medium::Ip, caps: Caps(c), ver }, false, true, rep, &mut total, &mut bases);
+                do_sweep("one-protocol-rx-off+hdrfix", Cfg { medium: Medium::Ip, caps: Caps(c), ver, dhcp: 0 }, false, true, rep, &mut total, &mut bases);
             }
         }
-        do_sweep("all-None", Cfg { medium: Medium::Ip, caps: Caps([3; 5]), ver }, false, false, rep, &mut total, &mut bases);
+        do_sweep("all-None", Cfg { medium: Medium::Ip, caps: Caps([3; 5]), ver, dhcp: 0 }, false, false, rep, &mut total, &mut bases);
+    }
+    for stage in [1u8, 2] {
+        let d = Cfg { medium: Medium::Ethernet, caps: Caps::DEFAULT, ver: Ver::V4, dhcp: stage };
+        do_sweep("dhcp", d, thorough, false, rep, &mut total, &mut bases);
+        do_sweep("dhcp+hdrfix", d, thorough, true, rep, &mut total, &mut bases);
+        do_sweep("dhcp all-Rx", Cfg { caps: all_rx, ..d }, false, false, rep, &mut total, &mut bases);
+        do_sweep("dhcp udp-rx-off", Cfg { caps: Caps([0, 2, 0, 0, 0]), ..d }, false, false, rep, &mut total, &mut bases);
     }
     let zero = zero_tests(rep, &mut total);
     for (sig, det, r) in &total.viols {
@@ -470,9 +527,9 @@ pub fn run(rep: &mut Report, tier: Tier) {
     );
     // a few mutants written out
     for (ver, case, bits) in [(Ver::V4, "udp-to-socket", vec![20 * 8 + 8 * 8 + 7]), (Ver::V6, "tcp-data-to-established", vec![8 * 8 + 3]), (Ver::V4, "icmp-echo-request", vec![28 * 8 + 6, 30 * 8 + 6])] {
-        let cfg = Cfg { medium: Medium::Ip, caps: Caps::DEFAULT, ver };
-        if let Ok((_, isn)) = make_world(&cfg) {
-            if let Some((_, base)) = base_cases(ver, isn).into_iter().find(|(n, _)| *n == case) {
+        let cfg = Cfg { medium: Medium::Ip, caps: Caps::DEFAULT, ver, dhcp: 0 };
+        if let Ok((_, isn, xid)) = make_world(&cfg) {
+            if let Some((_, base)) = base_cases(&cfg, isn, xid).into_iter().find(|(n, _)| *n == case) {
                 let mut m = base.clone();
                 for &b in &bits {
                     flip(&mut m, b);
@@ -488,7 +545,7 @@ pub fn run(rep: &mut Report, tier: Tier) {
 }
 
 pub fn replay(r: &Value) -> i32 {
-    let cfg = Cfg { medium: medium_from(r["medium"].as_str().unwrap_or("ip")), caps: Caps::from_json(&r["caps"]), ver: Ver::from_n(r["ver"].as_u64().unwrap_or(4)) };
+    let cfg = Cfg { medium: medium_from(r["medium"].as_str().unwrap_or("ip")), caps: Caps::from_json(&r["caps"]), ver: Ver::from_n(r["ver"].as_u64().unwrap_or(4)), dhcp: r["dhcp"].as_u64().unwrap_or(0) as u8 };
     let pkt = unhex(r["packet"].as_str().unwrap_or(""));
     let info = classify(&pkt);
     println!("config {}", cfg.name());
